@@ -345,3 +345,36 @@ package rewards
 //@   requires rwz != nil && rwz.Reward != nil && rwz.RewardCm != nil
 //@   modifies rwz.Reward.State, rwz.RewardCm.state
 //@   ensures result == rwz && rwz.Reward.State == state && rwz.RewardCm.state == state
+
+// ---------------------------------------------------------------- view "miss": the amount computed on a cache miss (C13)
+// "The per-block amount does not depend on when, within a calculation cycle, a node was restarted": a restarted node has a cold
+// cache and recomputes at whatever height it comes back. The main contract says which forecast it computes (a function of the
+// cycle's first block); this view adds the other factor: the amount is what was left of the year's supply AT THE START OF THE
+// RUNNING CYCLE (TillLastCycle - not the running total Distributed, which moves with every block of the cycle) divided by that
+// forecast. Proved in a separate view with opaque arithmetic (the quotient is the same term on both sides; next to the
+// nonlinear schedule clauses of the main contract the solvers answer `unknown`).
+//@ func (*RewardCalculator).Calculate view miss
+//@   opaque-arith
+//@   ensures old(calc.cached.cycleNo) <= 0 && err == nil && !calc.cached.burnedout ==> forall y int :: y == calc.cached.year ==> big(amt) == old(yearLeft(calc, y)) / fcBlocks(calc)   // C13.restart-amount
+
+// ---------------------------------------------------------------- reward chunks: which chunk is being filled, which one matures (C13)
+// "A validator can never withdraw more reward than has matured for it": block rewards are accumulated in chunks of
+// RewardInterval blocks; the chunk filled at height h has index idx(h) = LastIndex + (h - LastHeight)/interval + 1 over the
+// interval record in force at h, and the chunk that MATURES at height h is the one with index idx(h) - 2 OF THE SAME INDEX
+// FUNCTION (none while idx(h) < 2). Verified on the two key builders (exact key text, same index term); the interval record
+// in force (GetInterval: a scan) is an assumed read.
+//@ model ivlIdx(*RewardStore) array[int]int
+//@ model ivlHeight(*RewardStore) array[int]int
+//@ assume func (*RewardStore).GetInterval
+//@   modifies nothing
+//@   ensures result != nil && fresh(result) && result.LastIndex == ivlIdx(rs)[height] && result.LastHeight == ivlHeight(rs)[height]
+//@ ghost func chunkIdx(rs *RewardStore, h int, interval int) int = wrap64(wrap64(ivlIdx(rs)[h] + godiv(wrap64(h - ivlHeight(rs)[h]), interval)) + 1)
+//@ func (*RewardStore).generateKey
+//@   requires rs != nil
+//@   modifies nothing
+//@   ensures str(Key) == (addrStr(str(address)) + "_") + @int_str(chunkIdx(rs, height, interval))   // C13.chunk-key
+//@ func (*RewardStore).generateMaturedKey
+//@   requires rs != nil
+//@   modifies nothing
+//@   ensures chunkIdx(rs, height, interval) >= 2 ==> str(Key) == (addrStr(str(address)) + "_") + @int_str(wrap64(chunkIdx(rs, height, interval) - 2))   // C13.matured-chunk
+//@   ensures chunkIdx(rs, height, interval) < 2 ==> isnil(Key)                                              // C13.matured-chunk
